@@ -627,8 +627,6 @@ def finding_key(case, run):
         return 'C19.multiobj-invalid-init-raises', 'multi-objective objective invalid on the input graph: tune() raises'
     if multi_obj and kind in ('simultaneous', 'sequential'):
         return 'C19.multiobj-unsupported-raises', 'tuner without multi-objective support raises instead of returning the graph'
-    if multi_obj and not has_tunable(case):
-        return 'C19.multiobj-nothing-to-tune-raises', 'multi-objective, nothing to tune: the graph is iterated as a list'
     if kind == 'iopt' and has_tunable(case):
         floats = [(n, p, s) for n in case['graph'] for p, s in sspec.get(n['name'], {}).items() if TYPE[s[0]] == 'continuous']
         if not floats:
